@@ -209,17 +209,70 @@ impl Block {
         ensures r.header == b.header, r.hash == header_hash(b.header),
     { unimplemented!() }
 }
-// [trusted:assumed-contract] state::insert_next_block_headers (state.rs:276; announced headers live in entry-API NextBlockHeaders):
-// touches only the announced headers inside unstable_blocks, never the tree, the UTXO set, the header store or the syncing state
+// ---- state::insert_next_block_headers (state.rs:279) on its real loop: announced headers that are garbage, invalid, duplicate
+// ---- or not connected end the batch or are skipped; none of them traps, none touches anything but the announced headers ------
+// [trusted:stand-in] the header decoder (total on arbitrary bytes), the instruction counter, the header validator of unit `valid`
+// behind a context that may also look into the announced headers, and the insertion into the entry-API NextBlockHeaders
+struct HeaderDecodeError { code: u8 }
+impl Header {
+    #[verifier::external_body]
+    fn consensus_decode(r: &mut &[u8]) -> (res: Result<Header, HeaderDecodeError>) { unimplemented!() }
+}
 #[verifier::external_body]
-fn insert_next_block_headers(state: &mut State, next_block_headers: &[BlockHeaderBlob])
-    ensures
-        final(state).unstable_blocks.tree == old(state).unstable_blocks.tree,
-        final(state).utxos == old(state).utxos,
-        final(state).stable_block_headers == old(state).stable_block_headers,
-        final(state).syncing_state == old(state).syncing_state,
-        final(state).unstable_blocks.next_block_headers.offered@ == old(state).unstable_blocks.next_block_headers.offered@ + 1,
-{ unimplemented!() }
+fn inc_performance_counter() -> (r: u64) { unimplemented!() }
+impl BlockHeaderBlob {
+    #[verifier::external_body]
+    fn as_slice(&self) -> (r: &[u8]) { unimplemented!() }
+}
+struct ValidateHeaderError { code: u8 }
+struct HeaderValidator<'a> { ctx: ValidationContext<'a>, network: BitcoinNetwork }
+impl<'a> HeaderValidator<'a> {
+    #[verifier::external_body]
+    fn new(ctx: ValidationContext<'a>, network: BitcoinNetwork) -> (r: HeaderValidator<'a>) { unimplemented!() }
+    #[verifier::external_body]
+    fn validate_header(&self, header: &Header, now: Duration) -> (r: Result<(), ValidateHeaderError>) { unimplemented!() }
+}
+impl<'a> ValidationContext<'a> {
+    #[verifier::external_body]
+    fn new_with_next_block_headers(state: &'a State, header: &Header) -> (r: Result<ValidationContext<'a>, ValidationContextError>) { unimplemented!() }
+}
+impl UnstableBlocks {
+    #[verifier::external_body]
+    fn has_next_block_header(&self, block_header: &Header) -> (r: bool) { unimplemented!() }
+    // [trusted:assumed-contract] UnstableBlocks::insert_next_block_header (unstable_blocks.rs:221; find_mut returns `&mut`, outside Verus):
+    // touches only the announced headers
+    #[verifier::external_body]
+    fn insert_next_block_header(&mut self, block_header: Header, stable_height: Height) -> (r: Result<(), BlockDoesNotExtendTree>)
+        ensures
+            final(self).tree == old(self).tree, final(self).stability_threshold == old(self).stability_threshold, final(self).network == old(self).network,
+            final(self).outpoints_cache == old(self).outpoints_cache, final(self).tip_depths_cache == old(self).tip_depths_cache,
+            final(self).next_block_headers.offered@ == old(self).next_block_headers.offered@,
+    { unimplemented!() }
+}
+//@extract file=canister/src/state.rs item="fn insert_next_block_headers" props=C10,C13
+//@ rewrite R4 "for block_header_blob in next_block_headers\.iter\(\) \{" => "let mut vp_i: usize = 0;\n    while vp_i < next_block_headers.len() {\n        let block_header_blob = &next_block_headers[vp_i];\n        vp_i = vp_i + 1;"
+//@ rewrite R10 "let validation_result =\s*(ValidationContext::new_with_next_block_headers\(state, &block_header\))\s*\.map_err\(\|e\| vp_format\(\)\)\s*\.and_then\(\|store\| \{(.*?)\n                \}\);" => "let validation_result: Result<(), String> = match \1 { Err(e) => Err(vp_format()), Ok(store) => {\2\n                } };"
+//@ rewrite R10 "\.validate_header\(&block_header, duration_since_epoch\(\)\)\s*\.map_err\(\|e\| vp_format\(\)\)" => ".validate_header(&block_header, duration_since_epoch()).map_err(|e: ValidateHeaderError| -> (vp_s: String) { vp_format() })"
+//@ spec
+//@| ensures
+//@|     // only the announced headers inside unstable_blocks are touched: never the tree, the UTXO set, the header store or the syncing state
+//@|     final(state).unstable_blocks.tree == old(state).unstable_blocks.tree,
+//@|     final(state).utxos == old(state).utxos,
+//@|     final(state).stable_block_headers == old(state).stable_block_headers,
+//@|     final(state).syncing_state == old(state).syncing_state,
+//@|     final(state).unstable_blocks.next_block_headers.offered@ == old(state).unstable_blocks.next_block_headers.offered@ + 1,
+//@ start
+//@| state.unstable_blocks.next_block_headers.offered = Ghost(state.unstable_blocks.next_block_headers.offered@ + 1);
+//@ loop 1
+//@| invariant
+//@|     vp_i <= next_block_headers@.len(),
+//@|     state.unstable_blocks.tree == old(state).unstable_blocks.tree,
+//@|     state.utxos == old(state).utxos,
+//@|     state.stable_block_headers == old(state).stable_block_headers,
+//@|     state.syncing_state == old(state).syncing_state,
+//@|     state.unstable_blocks.next_block_headers.offered@ == old(state).unstable_blocks.next_block_headers.offered@ + 1,
+//@| decreases next_block_headers@.len() - vp_i,
+//@end
 
 //@extract file=canister/src/heartbeat.rs item="fn maybe_process_response" props=C10,C13
 //@ sigrewrite R7 "fn maybe_process_response\(\)" => "fn maybe_process_response(state: &mut State)"
